@@ -58,15 +58,21 @@ Theorem C09_roster_untouched_by_other_calls : forall ctl st ev st' er,
 Proof. exact apply_event_players. Qed.
 Theorem C09_unhandled_call_is_noop : forall ctl st ev, assoc_get (ev_key ev) (c_handlers ctl) = None -> apply_event ctl st ev = (st, None).
 Proof. exact unhandled_event_is_noop. Qed.
-(* the map name: the code strips a character SET; the statement asks for prefix removal (listed finding C09-a) *)
-Theorem C09_map_name_refuted :
+(* the map name (after the repair recorded as fixed: C09-a - the setter used str.lstrip, which strips a character SET): the setter removes
+   exactly the prefix "spaces/" when it is there and leaves every other name alone *)
+Theorem C09_map_setter_removes_prefix : forall ctl ev loc st e b,
+  eval {| cx_ev := ev; cx_locals := loc; cx_st := st |} e = Ok (PStr b) ->
+  exec_s ctl {| cx_ev := ev; cx_locals := loc; cx_st := st |} (SMapPrefix e) = (loc, set_field st "_map" (PStr (remove_prefix spaces_set b)), None).
+Proof. exact map_setter_removes_prefix. Qed.
+Theorem C09_remove_prefix_spec : forall p s, remove_prefix p (p ++ s) = s.
+Proof. exact remove_prefix_spec. Qed.
+Theorem C09_remove_prefix_absent : forall p s, strip_prefix p s = None -> remove_prefix p s = s.
+Proof. exact remove_prefix_absent. Qed.
+(* why it mattered: the old setter on a map whose name starts with one of the letters s p a c e *)
+Example C09_lstrip_was_wrong :
   lstrip_set spaces_set (list_byte_of_string "spaces/s07_Advance") = list_byte_of_string "07_Advance" /\
   remove_prefix (list_byte_of_string "spaces/") (list_byte_of_string "spaces/s07_Advance") = list_byte_of_string "s07_Advance".
 Proof. exact lstrip_is_not_prefix_removal. Qed.
-Theorem C09_map_name_partial : forall rest,
-  match rest with [] => True | b :: _ => existsb (Byte.eqb b) spaces_set = false end ->
-  lstrip_set spaces_set (list_byte_of_string "spaces/" ++ rest) = remove_prefix (list_byte_of_string "spaces/") (list_byte_of_string "spaces/" ++ rest).
-Proof. exact lstrip_agrees_with_prefix_removal. Qed.
 
 (* non-vacuity: a controller of the bundled shape and a history with a repeated attacker inside one batch, an interleaved death
    and an unhandled call; the hypotheses hold and the totals are what the theorem says *)
@@ -115,7 +121,7 @@ Print Assumptions C09_roster_last_writer.
 Print Assumptions C09_nothing_leaks.
 Print Assumptions C09_roster_untouched_by_other_calls.
 Print Assumptions C09_unhandled_call_is_noop.
-Print Assumptions C09_map_name_refuted.
-Print Assumptions C09_map_name_partial.
+Print Assumptions C09_map_setter_removes_prefix.
+Print Assumptions C09_remove_prefix_spec.
 Print Assumptions C09_example_run.
 Print Assumptions C09_example_hypotheses.
